@@ -579,12 +579,17 @@ func checkBranching(c *core.Ctx) {
 						continue
 					}
 					bo, isBo := iff.Cond.(*ssa.BinOp)
-					if !isBo || bo.Op != token.EQL {
+					if !isBo || (bo.Op != token.EQL && bo.Op != token.NEQ) {
 						continue
+					}
+					// the edge on which the index differs from the default's: false edge of `==`, true edge of `!=`
+					ne := 1
+					if bo.Op == token.NEQ {
+						ne = 0
 					}
 					for _, v := range []ssa.Value{bo.X, bo.Y} {
 						if ld, ok := v.(*ssa.UnOp); ok && ld.Op == token.MUL {
-							if f := core.FieldOf(ld.X); f != nil && f.Name() == "Default" && core.EdgeDominates(d, 1, b) {
+							if f := core.FieldOf(ld.X); f != nil && f.Name() == "Default" && core.EdgeDominates(d, ne, b) {
 								skipsDefault = true
 							}
 						}
